@@ -114,6 +114,11 @@ def pstep (trace : Bool) (st : St) (toks : List String) : St × String × String
     if !validStore s || toks.length < 3 then (st, "bad-op", "bad-op") else
     let id := num toks 2
     ({ st with sys := if id == 0 then st.sys else remove st.sys s id }, "ok", "ok")
+  | some "p.restart" =>
+    -- a new process image of the store: `newCommandPipeline` (counter 0, empty map); the
+    -- clients of the old image are gone.  Observation-only: only a cluster run restarts stores.
+    if !trace || !validStore s then (st, "bad-op", "bad-op") else
+    ({ st with sys := restart st.sys s }, "ok", "ok")
   | some "p.state" =>
     if !validStore s then (st, "bad-op", "bad-op") else
     (st, stateStr (st.sys.st s), "*")
@@ -179,6 +184,7 @@ def clusterOp (toks : List String) : String :=
   | some "c.iso" => if validStore a then "ok" else "bad-op"
   | some "c.heal" => "ok"
   | some "c.wait" => "ok"
+  | some "c.restart" => if validStore a then "ok" else "bad-op"
   | some "c.propose" => if validStore a && validRegion b then "ok" else "bad-op"
   | some "c.read" => if validStore a && validRegion b then "ok" else "bad-op"
   | some "c.probe" => if validStore a && toks.length ≥ 6 then "ok" else "bad-op"
